@@ -18,12 +18,25 @@ CHECKS = {
             "all socket-call/yield events of those runs and of seeded random runs are accepted by the TLA+ monitor.",
             "Scripted socket and JSON projection in harness/src/bin/drive_tcp.rs; TLC; fair-socket assumption for liveness.",
             "DESIGN.md section 4 C17", "tcp"),
+    "C15": ("model_checking",
+            "TLA+ cache model + requirement invariants checked by TLC; TLC-generated histories (with the allowed outcome of "
+            "every get) replayed into the real ResponseCache on a virtual clock; recorded random histories validated by a "
+            "TLA+ monitor",
+            "Exhaustive model check of insert/get/advance/evict histories over a small universe (per-type overrides, min>ttl, "
+            "max<ttl, min=max, 0); thousands of TLC-simulated histories over 7 TTL configurations replayed through "
+            "hickory_resolver::ResponseCache (hit/miss, every reported TTL); seeded random histories over random "
+            "configurations recorded from the real cache and accepted event by event by Trace_Cache.",
+            "The cache API takes `now` explicitly, so the clock is virtual without hooks; a miss is always allowed (eviction); "
+            "configurations with min > max are excluded; TLC and the JSON projection are trusted.",
+            "DESIGN.md section 4 C15", "cache"),
 }
 
 NOT_YET = {
 }
 
 ENGINES = [
+    {"name": "cache", "path": "spec/Cache.tla", "serves_properties": ["C15"],
+     "kind_free_text": "TLA+ spec (CacheOps, Cache, MC_/Gen_/Trace_Cache) + harness/src/bin/drive_cache.rs"},
     {"name": "tcp", "path": "spec/TcpFraming.tla", "serves_properties": ["C17"],
      "kind_free_text": "TLA+ spec (Framing, TcpFraming, MC_/Gen_/Trace_TcpFraming) + harness/src/bin/drive_tcp.rs"},
 ]
